@@ -21,12 +21,25 @@ def handleCompatMat (j : Json) : R Json := do
   let rows := ds.map fun a => String.ofList (ds.map fun b => if isCompatible a b then '1' else '0')
   pure (Json.mkObj [("rows", Json.arr (rows.map Json.str).toArray)])
 
+def handleGen (j : Json) : R Json := do
+  let els ← listOf elementOf (← getF j "els")
+  let ev ← listOf eventOf (← getF j "ev")
+  let fuel ← natOf (← getF j "fuel")
+  match genMol fuel els ev with
+  | .error e => pure (Json.mkObj [("ok", Json.bool false), ("err", Json.str (errToString e))])
+  | .ok (m, tr, rest) =>
+    pure (Json.mkObj [("ok", Json.bool true),
+      ("mol", match m with | none => Json.null | some m => molToJson m),
+      ("trace", Json.arr (tr.map traceItemToJson).toArray),
+      ("rest", natToJson rest.length)])
+
 def handle (j : Json) : R Json := do
   let op ← strOf (← getF j "op")
   match op with
   | "COMPAT" => handleCompat j
   | "ORDER" => handleOrder j
   | "IDS" => handleIds j
+  | "GEN" => handleGen j
   | "COMPATMAT" => handleCompatMat j
   | _ => throw s!"unknown op {op}"
 
